@@ -50,6 +50,7 @@ void Shim::reset() {
   on_write = nullptr;
   on_access = nullptr;
   on_readdir = nullptr;
+  kill_cost_ms = 0;
   on_sdbus = nullptr;
   fdmap()->clear();
 }
@@ -275,6 +276,7 @@ int kill(pid_t pid, int sig) {
     e.ret = err ? -1 : 0;
     e.err = err;
     g.log(e);
+    if (g.kill_cost_ms > 0) g.advance_ms(g.kill_cost_ms);
     if (err) {
       errno = err;
       return -1;
